@@ -29,6 +29,26 @@ theorem include_functions_are_modelled :
     CV.Gen.SecretsInclude.body_importResource = "{ from := source[key] if from != nil { var to map[string]any if v, ok := target[key]; ok && v != nil { to, ok = v.(map[string]any) if !ok { return fmt.Errorf(\"%s must be a mapping\", key) } } else { to = map[string]any{} } resources, ok := from.(map[string]any) if !ok { return fmt.Errorf(\"%s must be a mapping\", key) } for name, a := range resources { if conflict, ok := to[name]; ok { if same(key, name, a, conflict) { continue } return fmt.Errorf(\"%s.%s conflicts with imported resource\", key, name) } to[name] = a } target[key] = to } return nil }" :=
   ⟨rfl, rfl, rfl, rfl, rfl, rfl, rfl, rfl, rfl⟩
 
+/-- **no other path for the value** (whole library, regenerated): the resolvers are called from `ResolveEnvironment` and
+from the last statement of `loadYamlModel` only; the carrier key is used by `resolveSecretsEnvironment` (write) and
+`secretConfigDecoderHook` (read, delete) only; the rendering flag is written by `marshallOptions.apply` (and copied by the
+generated deep copies) and read by the two secret renderers only -/
+theorem no_other_path_for_the_value :
+    CV.Gen.SecretsInclude.resolver_call_sites =
+      ["loader/environment.go:ResolveEnvironment:resolveConfigsEnvironment", "loader/environment.go:ResolveEnvironment:resolveSecretsEnvironment",
+       "loader/loader.go:loadYamlModel:ResolveEnvironment", "loader/loader.go:loadYamlModel:resolveSecretsEnvironment"] ∧
+    CV.Gen.SecretsInclude.carrier_uses =
+      ["loader/environment.go:resolveSecretsEnvironment:SecretConfigXValue", "loader/loader.go:secretConfigDecoderHook:SecretConfigXValue",
+       "loader/loader.go:secretConfigDecoderHook:SecretConfigXValue"] ∧
+    CV.Gen.SecretsInclude.flag_writes =
+      ["types/derived.gen.go:deriveDeepCopy_*:dst.marshallContent = src.marshallContent", "types/derived.gen.go:deriveDeepCopy_*:dst.marshallContent = src.marshallContent",
+       "types/project.go:marshallOptions.apply:config.marshallContent = true"] ∧
+    CV.Gen.SecretsInclude.flag_uses =
+      ["types/derived.gen.go:deriveDeepCopy_*:marshallContent", "types/derived.gen.go:deriveDeepCopy_*:marshallContent",
+       "types/derived.gen.go:deriveDeepCopy_*:marshallContent", "types/derived.gen.go:deriveDeepCopy_*:marshallContent",
+       "types/project.go:marshallOptions.apply:marshallContent", "types/types.go:SecretConfig.MarshalJSON:marshallContent",
+       "types/types.go:SecretConfig.MarshalYAML:marshallContent"] := ⟨rfl, rfl, rfl, rfl⟩
+
 /-! ## the two environments and the two resolutions -/
 
 /-- **the include's environment**: what the including environment defines wins; the include's env file only adds -/
